@@ -379,16 +379,32 @@ def _check_file(m: Machine, path_id: str, req: str, mode: str, stats: Counter) -
         bad.append(("standard_small_needs_sidecar", "nothing spilled, yet the main file alone does not load"))
     # ORT on the path vs ORT on the proto, bit-identical
     prog = m.prog(req)
+    a = None
     try:
         xs = prog.make_inputs(0)
         a = oracle.ort_run(exp, xs, prog.kwargs.get("input_params"), prog.kwargs.get("inputs_as_nchw"))
-        b = oracle.ort_run(ap, xs, prog.kwargs.get("input_params"), prog.kwargs.get("inputs_as_nchw"))
-        if oracle.outputs_digest(a) != oracle.outputs_digest(b):
-            bad.append(("ort_outputs_differ", "ORT(file) != ORT(proto) bitwise"))
-        else:
-            stats["ort_equal"] += 1
-    except Exception as exc:
-        bad.append(("ort_failed_on_file", f"{type(exc).__name__}: {str(exc)[:160]}"))
+    except Exception:
+        # the runtime cannot execute this request at all (e.g. an operator it has no kernel for, a random
+        # op): nothing to compare; the byte-level comparisons above already ran (false alarm seen at seed 2
+        # with a registry testcase using RandomUniform)
+        stats["probe_runtime_cannot_execute_the_proto_either"] += 1
+    if a is not None and req.startswith(("primitives.", "examples.")):
+        # registry testcases may contain seedless random operators: the proto must reproduce itself first
+        try:
+            if oracle.outputs_digest(oracle.ort_run(exp, xs, prog.kwargs.get("input_params"), prog.kwargs.get("inputs_as_nchw"))) != oracle.outputs_digest(a):
+                stats["probe_proto_outputs_not_reproducible_in_runtime"] += 1
+                a = None
+        except Exception:
+            a = None
+    if a is not None:
+        try:
+            b = oracle.ort_run(ap, xs, prog.kwargs.get("input_params"), prog.kwargs.get("inputs_as_nchw"))
+            if oracle.outputs_digest(a) != oracle.outputs_digest(b):
+                bad.append(("ort_outputs_differ", "ORT(file) != ORT(proto) bitwise"))
+            else:
+                stats["ort_equal"] += 1
+        except Exception as exc:
+            bad.append(("ort_failed_on_file", f"{type(exc).__name__}: {str(exc)[:160]}"))
     shutil.rmtree(iso, ignore_errors=True)
     return bad
 
